@@ -100,6 +100,12 @@ func runStore(c storeCase) storeObs {
 				}
 			case "plain":
 				st.Obs.Res, st.Obs.Intact = expandRes(env, ast.Word{&ast.ParamExp{Braces: len(op.N) > 1, Name: &ast.Lit{Value: op.N}}})
+			case "%a":
+				st.Obs.Res, st.Obs.Intact = expandRes(env, ast.Word{&ast.ParamExp{Braces: true, Name: &ast.Lit{Value: "@"}, Op: "%",
+					Word: ast.Word{&ast.ArithExp{Expr: ast.Word{&ast.Lit{Value: "_y += 1"}}}}}})
+			case ":=a":
+				st.Obs.Res, st.Obs.Intact = expandRes(env, ast.Word{&ast.ParamExp{Braces: true, Name: &ast.Lit{Value: op.N}, Op: ":=",
+					Word: ast.Word{&ast.ArithExp{Expr: ast.Word{&ast.Lit{Value: "_y += 1"}}}}}})
 			case "p:=":
 				st.Obs.Res, st.Obs.Intact = expandRes(env, ast.Word{&ast.Lit{Value: "p"}, &ast.ParamExp{Braces: true, Name: &ast.Lit{Value: op.N}, Op: ":=",
 					Word: ast.Word{&ast.Lit{Value: op.V}}}})
